@@ -112,11 +112,11 @@ NAV = {
 }
 for key, (dec, funcs) in NAV.items():
     if key == "level_order":
-        # VecDeque + per-node child Vec: the n=4 instance needs > 14 GB; quick tier uses n=3
-        H(prop="C19", name="c19_level_order_n3", crate="core-h", module="c19_nav", decides=dec, functions=funcs, assumes=[ST_TS],
-          shape="ANY(3)", bounds="every tree of <= 3 nodes, every start node; unwind 10")
-        H(prop="C19", name="c19_level_order_n4", crate="core-h", module="c19_nav", tier="thorough", decides=dec, functions=funcs, assumes=[ST_TS],
-          shape="ANY(4)", bounds="every tree of <= 4 nodes, every start node; unwind 10", timeout=3000, mem_gb=30)
+        # `Level` keeps a VecDeque of nodes; with a symbolic start node / shape the CBMC instance
+        # exhausts 24 GB or 900 s already at 3 nodes (measured). So shapes and start nodes are
+        # enumerated by concrete loops and only the labels are symbolic (stated in bounds).
+        H(prop="C19", name="c19_level_order_shapes_n4", crate="core-h", module="c19_nav", decides=dec, functions=funcs, assumes=[ST_TS],
+          shape="9 concrete shapes <= 4 nodes", bounds="all 9 pre-order shapes of <= 4 nodes x every start node (concrete loops) x symbolic named bits and widths 0-2; unwind 10", timeout=1200, mem_gb=20)
         continue
     H(prop="C19", name=f"c19_{key}_n4", crate="core-h", module="c19_nav", decides=dec, functions=funcs, assumes=[ST_TS],
       shape="ANY(4)", bounds="every tree of <= 4 nodes (symbolic pre-order parent vector), symbolic kinds/named bits, leaf widths 0-2 (1-2 for sibling clauses), gaps 0-1, every start node; unwind 10")
@@ -134,28 +134,120 @@ ALIGN_FUNCS = ["ast_grep_core::match_tree::match_node::match_node_impl", "ast_gr
                "ast_grep_core::match_tree::match_node::may_match_ellipsis_impl", "ast_grep_core::match_tree::strictness::MatchStrictness::match_terminal",
                "ast_grep_core::meta_var::MetaVarEnv::insert"]
 ALIGN_ASSUMES = [ST_TS, "namedness is a function of the kind id; anonymous tokens' text is fixed by their kind"]
-H(prop="C03", name="c03_sound_len_t_cap_t_k3", crate="core-h", module="c03_align", recursion=REC_FLAT, timeout=1500,
-  decides="pattern [T,$A,T]: get_match_len = Some(len) on a FLAT(k) node => a legal alignment exists (oracle from the property text); len <= node",
-  functions=ALIGN_FUNCS[:4], assumes=ALIGN_ASSUMES,
-  shape="FLAT(3)", bounds="k <= 3 candidate leaves with symbolic kind in {ident,number,comment,punct_a,punct_b}, 1-byte texts over {x,y}; goal terminals symbolic incl. ERROR kind; all 5 strictness; unwind 10, recursion depth 2")
-H(prop="C03", name="c03_sound_env_t_cap_k2", crate="core-h", module="c03_align", recursion=REC_FLAT, timeout=1500,
-  decides="pattern [T,$A]: match_node = Some on a FLAT(k) node => a legal alignment exists",
-  functions=ALIGN_FUNCS, assumes=ALIGN_ASSUMES + [ST_MAP],
-  shape="FLAT(2)", bounds="k <= 2 candidate leaves, symbolic labels, all 5 strictness; unwind 10, recursion depth 2")
+KF_ELL = ["ellipsis_skips_following_tokens"]
+ALIGN_ENV = [  # (harness suffix, pattern children, k, tier)
+  ("t_cap_k1", "[T,$A]", 1, "quick"), ("t_cap_k2", "[T,$A]", 2, "quick"),
+  ("t_t_k2", "[T,T]", 2, "quick"), ("capany_t_k2", "[$$A,T]", 2, "quick"), ("ell_t_k2", "[$$$,T]", 2, "quick"),
+  ("t_cap_t_k2", "[T,$A,T]", 2, "thorough"), ("t_cap_t_k3", "[T,$A,T]", 3, "thorough"),
+  ("t_t_k3", "[T,T]", 3, "thorough"), ("t_ell_t_k3", "[T,$$$B,T]", 3, "thorough"),
+]
+for suf, pat, k, tier in ALIGN_ENV:
+    H(prop="C03", name=f"c03_env_{suf}", crate="core-h", module="c03_align", recursion=REC_FLAT, timeout=1500 if tier == "quick" else 5400, tier=tier, mem_gb=20,
+      decides=f"pattern {pat}: match_node = Some on a FLAT({k}) node => a legal alignment exists (oracle written from the property text)",
+      functions=ALIGN_FUNCS, assumes=ALIGN_ASSUMES + [ST_MAP], kf_keys=KF_ELL,
+      shape=f"FLAT({k})", bounds=f"exactly {k} candidate leaves with symbolic kind in {{ident,number,comment,punct_a,punct_b}}, 1-byte texts over {{x,y}}; goal terminals symbolic incl. ERROR kind; all 5 strictness; unwind 10, recursion depth 2")
+for suf, pat, k, tier in (("t_cap_t_k2", "[T,$A,T]", 2, "quick"), ("ell_t_k2", "[T,$$$,T]", 2, "quick"), ("t_cap_t_k3", "[T,$A,T]", 3, "thorough")):
+    H(prop="C03", name=f"c03_len_{suf}", crate="core-h", module="c03_align", recursion=REC_FLAT, timeout=1500 if tier == "quick" else 5400, tier=tier, mem_gb=20,
+      decides=f"pattern {pat}: get_match_len = Some(len) on a FLAT({k}) node with 2-byte children => len <= node length and len ends at a child end",
+      functions=ALIGN_FUNCS[:4] + ["ast_grep_core::match_tree::ComputeEnd"], assumes=ALIGN_ASSUMES,
+      shape=f"FLAT({k})", bounds=f"exactly {k} candidate leaves (2 bytes wide), symbolic labels, all 5 strictness; unwind 10, recursion depth 2")
 
-# ---------------------------------------------------------------- C01 / C06 search drivers
-SEARCH_ASSUMES = [ST_TS, "matcher stub SymM: symbolic verdict per node; potential_kinds assumed to contain the kind of every node it accepts (the trait's contract)"]
-for n, tier in ((4, "quick"), (5, "thorough")):
-    H(prop="C01", name=f"c01_find_all_exact_n{n}", crate="core-h", module="c01_search", tier=tier,
-      decides="FindAllNodes (kind prefilter + Pre) yields exactly the matching nodes of the subtree, ascending document order, none dropped/invented/duplicated",
-      functions=["ast_grep_core::matcher::FindAllNodes::next", "ast_grep_core::traversal::Pre::next"], assumes=SEARCH_ASSUMES,
-      shape=f"ANY({n})", bounds=f"every tree <= {n} nodes, every start node, symbolic verdict vector, symbolic kind set (or None) over kinds 1..8; unwind 10", timeout=3000 if n == 5 else 900, mem_gb=20)
-    H(prop="C01", name=f"c01_outermost_pre_n{n}", crate="core-h", module="c01_search", tier=tier,
-      decides="Visitor::reentrant(false) yields exactly the matched nodes without a matched proper ancestor, in document order",
-      functions=["ast_grep_core::traversal::Visit::next", "ast_grep_core::traversal::Pre::calibrate_for_match", "ast_grep_core::traversal::Pre::trace_up"], assumes=SEARCH_ASSUMES,
-      shape=f"ANY({n})", bounds=f"every tree <= {n} nodes, every start node, symbolic verdict vector; unwind 10", timeout=3000 if n == 5 else 900, mem_gb=20)
-H(prop="C06", name="c06_replace_all_disjoint_n4", crate="core-h", module="c01_search",
-  decides="Node::replace_all: edits ordered, pairwise disjoint, inside the file; each edit = [matched.start, matched.start + match_len)",
-  functions=["ast_grep_core::node::Node::replace_all", "ast_grep_core::matcher::node_match::NodeMatch::make_edit", "ast_grep_core::replacer::Replacer::get_replaced_range"],
-  assumes=SEARCH_ASSUMES + ["get_match_len stub returns a length <= the node's length"],
-  shape="ANY(4)", bounds="every tree <= 4 nodes, symbolic verdicts and match lengths; unwind 10", timeout=900, mem_gb=20)
+H(prop="C03", name="c03_terminal_step", crate="core-h", module="c03_terminal",
+  decides="match_terminal / should_skip_trailing == decision table of the strictness documentation; MatchedBoth => kinds agree (or goal ERROR) and (unnamed or text equal or signature)",
+  functions=["ast_grep_core::match_tree::strictness::MatchStrictness::match_terminal", "ast_grep_core::match_tree::strictness::MatchStrictness::should_skip_trailing"],
+  assumes=ALIGN_ASSUMES, shape="1 goal x 1 candidate", bounds="goal/candidate kinds in {ident,number,comment,punct_a,punct_b} (+ERROR goal), 1-byte texts, all 5 strictness; unwind 10")
+H(prop="C03", name="c03_should_skip_goal", crate="core-h", module="c03_terminal",
+  decides="should_skip_goal consumes exactly the maximal prefix of goals the strictness lets stay unmatched (ellipsis; unnamed holes/tokens under ast/relaxed/signature)",
+  functions=["ast_grep_core::match_tree::strictness::MatchStrictness::should_skip_goal"],
+  shape="<=3 goals", bounds="every sequence of <= 3 goals over 6 variants x named bit, all 5 strictness; unwind 6")
+H(prop="C03", name="c03_kinds_error_wildcard", crate="core-h", module="c03_terminal",
+  decides="are_kinds_matching(goal, cand) <=> goal == cand or goal == ERROR(65535)",
+  functions=["ast_grep_core::matcher::kind::kind_utils::are_kinds_matching"], shape="INT", bounds="all u16 x u16")
+
+# ---------------------------------------------------------------- C04 / C01 ops
+OPS_ASSUMES = [ST_TS, ST_MAP, "stub children EnvM: symbolic verdict, optional binding written BEFORE answering (may write and then fail)"]
+H(prop="C04", name="c04_ops_any_env", crate="core-h", module="c04_ops", recursion={"ast_grep_core::match_tree::does_node_match_exactly::<": 1},
+  decides="ops::Any: success exposes exactly the first succeeding branch's bindings on top of the base env; failure leaves the env unchanged; caller's env never mutated",
+  functions=["ast_grep_core::ops::Any::match_node_with_env", "ast_grep_core::meta_var::MetaVarEnv::insert", "ast_grep_core::match_tree::does_node_match_exactly"],
+  assumes=OPS_ASSUMES, shape="root + 2 leaves", bounds="3 alternatives, names {A,B}, symbolic pre-existing binding, equal/different leaf texts; unwind 10")
+H(prop="C04", name="c04_ops_all_env", crate="core-h", module="c04_ops", recursion={"ast_grep_core::match_tree::does_node_match_exactly::<": 1},
+  decides="ops::All: success exposes the union of bindings; failure (incl. a child that wrote and then failed, or a conflicting binding) leaves the env unchanged",
+  functions=["ast_grep_core::ops::All::match_node_with_env", "ast_grep_core::meta_var::MetaVarEnv::insert", "ast_grep_core::match_tree::does_node_match_exactly"],
+  assumes=OPS_ASSUMES, shape="root + 2 leaves", bounds="3 conjuncts, names {A,B}, symbolic pre-existing binding, equal/different leaf texts; unwind 10")
+H(prop="C01", name="c01_kinds_algebra", crate="core-h", module="c04_ops",
+  decides="All/Any: verdict = conjunction/disjunction of children; cached potential_kinds = intersection (None-skipping) / union (None-absorbing) of children's sets, so the kind gate never rejects an accepted node",
+  functions=["ast_grep_core::ops::All::compute_kinds", "ast_grep_core::ops::Any::compute_kinds", "ast_grep_core::ops::All::match_node_with_env", "ast_grep_core::ops::Any::match_node_with_env"],
+  assumes=[ST_TS, "children accept only kinds they advertise (Matcher contract)"], shape="1 node", bounds="3 children, kind sets = symbolic masks over kinds 1..8 or None, node kind 1..8; unwind 10")
+
+# ---------------------------------------------------------------- C05 relational rules
+REL_ASSUMES = [ST_TS, ST_SERDE, ST_MAP, "no zero-width nodes; a field labels at most one child (the reference's own preconditions)"]
+REC_RULE = {
+  "std::ptr::drop_glue::<ast_grep_config::Rule<": 4,
+  "std::ptr::drop_glue::<std::boxed::Box<ast_grep_core::ops::Not<": 4,
+  "std::ptr::drop_glue::<ast_grep_core::ops::Not<": 4,
+  "std::ptr::drop_glue::<ast_grep_config::SerializableRule>": 4,
+  "std::ptr::drop_glue::<std::boxed::Box<ast_grep_config::": 4,
+  "<ast_grep_config::rule::relational_rule::Has<": 6,
+  "<ast_grep_config::Rule<": 6,
+  "ast_grep_core::match_tree::does_node_match_exactly::<": 1,
+}
+REL_FUNCS = {
+  "has": ["ast_grep_config::rule::relational_rule::Has::match_node_with_env"],
+  "inside": ["ast_grep_config::rule::relational_rule::Inside::match_node_with_env"],
+  "follows": ["ast_grep_config::rule::relational_rule::Follows::match_node_with_env", "ast_grep_core::node::Node::prev_all"],
+  "precedes": ["ast_grep_config::rule::relational_rule::Precedes::match_node_with_env", "ast_grep_core::node::Node::next_all"],
+}
+for rel in ("has", "inside", "follows", "precedes"):
+    for stop in ("neighbor", "end", "rule"):
+        H(prop="C05", name=f"c05_{rel}_{stop}_n4", crate="config-h", module="c05_rel",
+          decides=f"`{rel}: {{kind: number_, stopBy: {stop}}}` matches node x <=> reference evaluator (quantification over {rel} candidates limited by stopBy, stop rule inclusive), for every node x",
+          functions=REL_FUNCS[rel] + ["ast_grep_config::rule::stop_by::StopBy::find", "ast_grep_config::rule::stop_by::inclusive_until", "ast_grep_config::rule::deserialize_rule"],
+          assumes=REL_ASSUMES + [ST_REGEX], shape="ANY(4)", bounds="every tree <= 4 nodes with kinds in {ident,number,comment}, every target node incl. the root; unwind 10", timeout=1200, mem_gb=20,
+          stubbing=True, recursion=REC_RULE)
+for rel in ("has", "inside"):
+    for stop in ("neighbor", "end", "rule"):
+        H(prop="C05", name=f"c05_{rel}_field_{stop}_n4", crate="config-h", module="c05_rel",
+          decides=f"`{rel}: {{kind: number_, stopBy: {stop}, field: fielda}}` matches node x <=> reference evaluator, for every node x",
+          functions=REL_FUNCS[rel] + ["ast_grep_config::rule::stop_by::StopBy::find"],
+          assumes=REL_ASSUMES + [ST_REGEX], shape="ANY(4)", bounds="every tree <= 4 nodes, symbolic field labels, every target node; unwind 10", timeout=1200, mem_gb=20,
+          stubbing=True, recursion=REC_RULE,
+          kf_keys=["has_field_stop_rule_depth"] if (rel, stop) == ("has", "rule") else [])
+for rel in ("has", "inside", "follows", "precedes"):
+    H(prop="C05", name=f"c05_{rel}_rule_n5", crate="config-h", module="c05_rel", tier="thorough",
+      decides=f"`{rel}: {{kind: number_, stopBy: {{kind: comment}}}}` matches node x <=> reference evaluator",
+      functions=REL_FUNCS[rel] + ["ast_grep_config::rule::stop_by::StopBy::find", "ast_grep_config::rule::stop_by::inclusive_until"],
+      assumes=REL_ASSUMES + [ST_REGEX], shape="ANY(5)", bounds="every tree <= 5 nodes, every target node; unwind 10", timeout=3600, mem_gb=24,
+      stubbing=True, recursion=REC_RULE)
+
+# ---------------------------------------------------------------- C14 scan with suppressions
+SCAN_FUNCS = ["ast_grep_config::combined::CombinedScan::scan", "ast_grep_config::combined::CombinedScan::new", "ast_grep_config::combined::Suppressions::collect",
+              "ast_grep_config::combined::Suppressions::check_suppression", "ast_grep_config::combined::MaySuppressed::suppressed_id", "ast_grep_config::combined::parse_suppression_set"]
+SCAN_ASSUMES = [ST_TS, ST_SERDE, ST_MAP, ST_REGEX, "single-line statements/comments; node rows are symbolic and independent of the (concrete) comment texts"]
+H(prop="C14", name="c14_suppress_iff_k2", crate="config-h", module="c14_scan", stubbing=True, recursion=REC_RULE, timeout=1800, mem_gb=20,
+  decides="finding (rule,node) reported <=> rule matches node and no applicable suppression (own-line comment on the previous line, or end-of-line comment on the same line, listing the rule or nothing); nothing duplicated",
+  functions=SCAN_FUNCS, assumes=SCAN_ASSUMES, shape="FLAT(2)",
+  bounds="all 20 variant vectors of 2 children over {stmt-a, stmt-b, ignore-all, ignore:ra, ignore:rb, plain comment} with >=1 statement and >=1 suppression, x symbolic monotone lines in [0,4]; 2 rules + unused-suppression rule; unwind 10")
+for first in ("stmta", "ignall", "ignra"):
+    H(prop="C14", name=f"c14_suppress_iff_k3_{first}", crate="config-h", module="c14_scan", stubbing=True, recursion=REC_RULE, timeout=3600, mem_gb=24, tier="thorough",
+      decides="finding (rule,node) reported <=> rule matches node and no applicable suppression; nothing duplicated",
+      functions=SCAN_FUNCS, assumes=SCAN_ASSUMES, shape="FLAT(3)",
+      bounds=f"first child {first}, all 36 variant pairs for children 2,3 (>=1 statement, >=1 suppression) x symbolic monotone lines in [0,4]; unwind 10")
+
+# ---------------------------------------------------------------- C02 cut-and-match
+CUTS = [("self_k1", "no hole", 1, "quick"), ("self_k2", "no hole", 2, "quick"), ("hole0_k2", "hole at child 0", 2, "quick"), ("ell1_k2", "$$$E from child 1", 2, "quick"),
+        ("hole1_k2", "hole at child 1", 2, "thorough"), ("hole01_k2", "holes at children 0,1", 2, "thorough"), ("ell0_k2", "$$$E from child 0", 2, "thorough"),
+        ("self_k3", "no hole", 3, "thorough"), ("hole1_k3", "hole at child 1", 3, "thorough"), ("hole02_k3", "holes at children 0,2", 3, "thorough"),
+        ("ell1_k3", "$$$E from child 1", 3, "thorough"), ("hole0_ell2_k3", "hole at 0, $$$E from child 2", 3, "thorough")]
+for suf, desc, k, tier in CUTS:
+    H(prop="C02", name=f"c02_{suf}", crate="core-h", module="c02_cut", recursion=REC_FLAT, timeout=1500 if tier == "quick" else 5400, tier=tier, mem_gb=20,
+      decides=f"pattern cut from a FLAT({k}) sibling list ({desc}) matches that list at every strictness and binds each hole to exactly the replaced child / siblings",
+      functions=ALIGN_FUNCS + ["ast_grep_core::meta_var::MetaVarEnv::insert_multi"], assumes=ALIGN_ASSUMES + [ST_MAP, "premise of the property assumed: the pattern tree has the code's shape (built from the candidate's own labels)"],
+      shape=f"FLAT({k})", bounds=f"{k} candidate leaves with symbolic kind/text (no ERROR/missing), holes only at named children, all 5 strictness; unwind 10, recursion depth 2")
+
+# ---------------------------------------------------------------- C01 combined dispatch
+for name, n, fixmode, tier in (("c01_combined_dispatch_n3", 3, "false", "quick"), ("c01_combined_dispatch_fix_n3", 3, "true", "quick"), ("c01_combined_dispatch_n4", 4, "false", "thorough")):
+    H(prop="C01", name=name, crate="config-h", module="c01_combined", stubbing=True, recursion=REC_RULE, tier=tier, timeout=1800 if tier == "quick" else 5400, mem_gb=20,
+      decides="CombinedScan::scan reports, per rule, exactly the nodes the rule matches individually, in document order, no duplicates (matches and diffs)",
+      functions=["ast_grep_config::combined::CombinedScan::new", "ast_grep_config::combined::CombinedScan::scan", "ast_grep_config::rule_core::RuleCore::do_match", "ast_grep_core::ops::Any::match_node_with_env"],
+      assumes=[ST_TS, ST_SERDE, ST_MAP, ST_REGEX, "rules' kind sets exclude the ERROR kind 65535 (65536-step table growth loop is out of reach)"],
+      shape=f"ANY({n})", bounds=f"every tree <= {n} nodes, kinds 1..8 or ERROR on nodes; 3 rules (kind; kind; any of two kinds), one with fix, given to CombinedScan::new in unsorted order, separate_fix={fixmode}; unwind 10")
